@@ -51,11 +51,11 @@ template <class R, class T> struct Api {
     void (*clear)(R *);
     T (*get)(R *);
     void (*put)(R *, T);
-    void (*ovr)(R *, bool);
+    void (*ovr)(R *, int);   // through a C wrapper: the argument is whatever integer the caller has, converted by the callee's declared parameter type
     void (*iter)(rb_iter *, const R *, rb_iter_mode);
     T (*inspect)(const R *, const rb_iter *);
 };
-#define C19_API(NAME, T) Api<NAME, T>{NAME##_init, NAME##_size, NAME##_empty, NAME##_full, NAME##_clear, NAME##_get, NAME##_put, NAME##_override_if_full, NAME##_iter, NAME##_inspect}
+#define C19_API(NAME, T) Api<NAME, T>{NAME##_init, NAME##_size, NAME##_empty, NAME##_full, NAME##_clear, NAME##_get, NAME##_put, vp_##NAME##_ovr, NAME##_iter, NAME##_inspect}
 
 struct Model { size_t cap; bool ovr = false; std::deque<int64_t> q; };
 
@@ -103,7 +103,7 @@ template <class R, class T> struct Ring {
             break;
         }
         case CLEAR: api.clear(&r); m.q.clear(); break;
-        case OVR_ON: api.ovr(&r, true); m.ovr = true; break;
+        case OVR_ON: { static const int ON[6] = {1, 2, 0x100, 0xff00, -1, (int)0x80000000}; api.ovr(&r, ON[(size_t)(op.v < 0 ? -op.v : op.v) % 6]); m.ovr = true; break; }
         case OVR_OFF: api.ovr(&r, false); m.ovr = false; break;
         }
         return "";
@@ -123,7 +123,7 @@ template <class R, class T> struct Ring {
             break;
         }
         case CLEAR: api.clear(&r); m.q.clear(); break;
-        case OVR_ON: api.ovr(&r, true); m.ovr = true; break;
+        case OVR_ON: { static const int ON[6] = {1, 2, 0x100, 0xff00, -1, (int)0x80000000}; api.ovr(&r, ON[(size_t)(op.v < 0 ? -op.v : op.v) % 6]); m.ovr = true; break; }
         case OVR_OFF: api.ovr(&r, false); m.ovr = false; break;
         }
         std::string o = observe(m);
